@@ -123,7 +123,8 @@ def proof_step(prop, workdir, whitelist):
     for block in re.split(r"Closed under the global context", out):
         if "Axioms:" in block:
             for m in re.finditer(r"^([A-Za-z_][\w.']*)\s*:", block.split("Axioms:", 1)[1], flags=re.M):
-                axioms.append(m.group(1))
+                if m.group(1) != "Axioms":          # the header of a second axiom listing in the same block
+                    axioms.append(m.group(1))
     n_pa = closed + len(re.findall(r"^Axioms:", out, flags=re.M))
     not_white = sorted(set(a for a in axioms if not any(a == w or a.endswith("." + w) for w in whitelist)))
     ok = (r.returncode == 0) and n_pa >= len(thms) and not not_white and len(thms) > 0
